@@ -142,8 +142,23 @@ def project_assembled(result: Assembler.Result, module: gtirb.Module) -> dict:
                            "o": r.offset + (r.size if s.at_end else 0)})
     labels.sort(key=lambda d: (d["o"], d["nm"]))
     sxs = [{"o": off, "v": int(v)} for off, v in sorted(sect.symbolic_expression_sizes.items())]
+    cfi = []
+    try:
+        table = result.create_cfi_directives()
+        names = {s.uuid: s.name for s in module.symbols}
+        names.update({s.uuid: s.name for s in result.symbols})
+        for off, ds in table.items():
+            blk = off.element_id
+            if id(blk) in blockset:
+                cfi.append({"o": blk.offset + off.displacement, "ds": [
+                    {"op": d[0][5:] if d[0].startswith(".cfi_") else d[0],
+                     "args": [int(x) for x in d[1] if isinstance(x, int)][:8],
+                     "sym": base_name(names.get(d[2], "")), "big": False} for d in ds]})
+    except Exception:
+        cfi = [{"o": 0, "ds": [{"op": "?error", "args": [], "sym": "", "big": False}]}]
+    cfi.sort(key=lambda c: c["o"])
     return {"units": units, "sx": sx, "labels": labels, "n": len(data),
-            "sxs": sxs, "nsec": len(result.sections)}
+            "sxs": sxs, "nsec": len(result.sections), "cfi": cfi}
 
 
 def assemble_standalone(shape: dict, spec: dict) -> dict:
@@ -157,10 +172,10 @@ def assemble_standalone(shape: dict, spec: dict) -> dict:
 
 def bytes_patch(data: bytes) -> dict:
     return {"units": [{"o": i, "n": 1, "k": "data", "tg": "", "tgb": "", "by": [v]} for i, v in enumerate(data)],
-            "sx": [], "labels": [], "n": len(data), "sxs": [], "nsec": 1}
+            "sx": [], "labels": [], "n": len(data), "sxs": [], "nsec": 1, "cfi": []}
 
 
-EMPTY_PATCH = {"units": [], "sx": [], "labels": [], "n": 0, "sxs": [], "nsec": 0}
+EMPTY_PATCH = {"units": [], "sx": [], "labels": [], "n": 0, "sxs": [], "nsec": 0, "cfi": []}
 
 
 def exc_name(e: BaseException) -> str:
